@@ -241,6 +241,10 @@ func dayEstablished(p *Program, fn *ssa.Function) string {
 				if other == dayParam || (strings.HasPrefix(other, "(time.Time).Day(time.Date(") && strings.HasSuffix(other, "time.UTC))")) {
 					ok = true
 				}
+				// the day component of t.Date() of the same UTC construction
+				if strings.HasPrefix(other, "(time.Time).Date(time.Date(") && strings.HasSuffix(other, "time.UTC))#2") {
+					ok = true
+				}
 			}
 		}
 		if !ok {
@@ -410,6 +414,29 @@ func RuleZone(r *Report, p *Program, c *Codec) {
 		if nFmt == 2 && rc.parseL != "" {
 			sites = append(sites, rc)
 		}
+		// the other way of recombining them: time.Date(civil fields of the date, clock fields of the time, 0,
+		// time.Local) - the instant package time builds for the parsed text
+		if nFmt == 0 {
+			for _, b := range fn.Blocks {
+				for _, in := range b.Instrs {
+					call, ok := in.(*ssa.Call)
+					if !ok || call.Call.StaticCallee() == nil || calleeName(call.Call.StaticCallee()) != "time.Date" || len(call.Call.Args) != 8 {
+						continue
+					}
+					dOK, cOK := civilTriple(call.Call.Args[0:3], "(time.Time).Date", []string{"(time.Time).Year", "(time.Time).Month", "(time.Time).Day"}, "SystemDate"),
+						civilTriple(call.Call.Args[3:6], "(time.Time).Clock", []string{"(time.Time).Hour", "(time.Time).Minute", "(time.Time).Second"}, "SystemTime")
+					if !dOK && !cOK {
+						continue // not a recombination of the two status fields
+					}
+					ns, isC := constInt(call.Call.Args[6])
+					rc2 := recomb{fn: fn, dateL: "civil fields", timeL: "clock fields", sep: "+", parseL: "civil fields+clock fields", local: isTimeLocal(call.Call.Args[7])}
+					if !(dOK && cOK && isC && ns == 0) {
+						rc2.parseL = "time.Date of other components"
+					}
+					sites = append(sites, rc2)
+				}
+			}
+		}
 	}
 	for _, s := range sites {
 		ok := s.local && s.parseL == s.dateL+s.sep+s.timeL
@@ -422,6 +449,52 @@ func RuleZone(r *Report, p *Program, c *Codec) {
 		r.Check(same, "Z4", "siblings", "", "GetStatus and Listen recombine identically", "the two status recombination sites use different layouts")
 	}
 	_ = types.Typ
+}
+
+// civilTriple: the three values are, in order, the three results of one call of multi (t.Date(), t.Clock()) or the
+// results of the three single-component accessors on one and the same value, and that value is (a conversion of)
+// a value whose type name contains typeHint.
+func civilTriple(vs []ssa.Value, multi string, singles []string, typeHint string) bool {
+	var recv ssa.Value
+	for i, v := range vs {
+		var r ssa.Value
+		switch x := v.(type) {
+		case *ssa.Extract:
+			call, ok := x.Tuple.(*ssa.Call)
+			if !ok || x.Index != i || call.Call.StaticCallee() == nil || calleeName(call.Call.StaticCallee()) != multi || len(call.Call.Args) != 1 {
+				return false
+			}
+			r = call
+		case *ssa.Call:
+			if x.Call.StaticCallee() == nil || calleeName(x.Call.StaticCallee()) != singles[i] || len(x.Call.Args) != 1 {
+				return false
+			}
+			r = x.Call.Args[0]
+		default:
+			return false
+		}
+		if i > 0 && r != recv {
+			return false
+		}
+		recv = r
+	}
+	// the receiver: the call itself (multi) or the common argument
+	var src ssa.Value = recv
+	if c, ok := recv.(*ssa.Call); ok && c.Call.StaticCallee() != nil && calleeName(c.Call.StaticCallee()) == multi {
+		src = c.Call.Args[0]
+	}
+	for i := 0; i < 4; i++ {
+		switch x := src.(type) {
+		case *ssa.ChangeType:
+			src = x.X
+			continue
+		case *ssa.Convert:
+			src = x.X
+			continue
+		}
+		break
+	}
+	return strings.Contains(typeName(src.Type()), typeHint)
 }
 
 // Z6: the zero test of the date types is the zero test of the instant they wrap.
